@@ -158,6 +158,10 @@ def fuse_comprehensions(t: "T") -> "T":
             return T(lit.op, lit.name, list(lit.args)[slice(lo, hi, st)], node=t.node)
     if t.op == "elem" and args and args[0].op == "comp" and len(args[0].args) == 2:
         return args[0].args[0]
+    # `for k, v in d.items()`: v == d[k]
+    if t.op == "item" and t.name == 1 and args and args[0].op == "elem" and args[0].args[0].op == "mcall" and \
+            args[0].args[0].name == "items" and len(args[0].args[0].args) == 1:
+        return T("sub", None, [args[0].args[0].args[0], T("item", 0, [args[0]], node=t.node)], node=t.node)
     # component k of an element of zip(A0, A1, ...) is an element of Ak
     if t.op == "item" and isinstance(t.name, int) and args and args[0].op == "elem" and args[0].args[0].op == "call" and \
             args[0].args[0].name == "zip" and t.name < len(args[0].args[0].args):
@@ -231,13 +235,42 @@ def fold_constant_conditions(t: "T") -> "T":
     return T(t.op, t.name, [fold_constant_conditions(a) for a in t.args], {k: fold_constant_conditions(v) for k, v in t.kw.items()}, t.node)
 
 
+def normalise_tests(t: "T") -> "T":
+    """`x in [a, b]` == `x == a or x == b`;  `x not in (a, b)` == `x != a and x != b`;  the operands of and/or are
+    ordered (terms are pure, so evaluation order does not matter) and duplicates dropped."""
+    if not t.args and not t.kw:
+        return t
+    args = [normalise_tests(a) for a in t.args]
+    kw = {k: normalise_tests(v) for k, v in t.kw.items()}
+    if t.op == "cmp" and t.name in ("in", "not in") and len(args) == 2 and args[1].op in ("list", "tuple", "set") and args[1].args and \
+            not any(a.op == "star" for a in args[1].args):
+        eq = "==" if t.name == "in" else "!="
+        parts = [T("cmp", eq, [args[0], a], node=t.node) for a in args[1].args]
+        if len(parts) == 1:
+            return parts[0]
+        t, args, kw = T("bool", "Or" if t.name == "in" else "And", parts, node=t.node), parts, {}
+    if t.op == "bool":
+        flat = []
+        for a in args:
+            flat += list(a.args) if (a.op == "bool" and a.name == t.name) else [a]
+        seen, out = set(), []
+        for a in sorted(flat, key=lambda x: x.key()):
+            if a.key() not in seen:
+                seen.add(a.key())
+                out.append(a)
+        if len(out) == 1:
+            return out[0]
+        return T("bool", t.name, out, node=t.node)
+    return T(t.op, t.name, args, kw, t.node)
+
+
 def canon(t: "T", max_conds: int = 6) -> "T":
     """Canonical form modulo the placement of conditionals: the term is Shannon-expanded over its distinct
     (positive) `ifexp` conditions in sorted order, so  f(a if c else b) == f(a) if c else f(b),
     `x if c else y` == `y if not c else x`, and nested tests on the same condition collapse.  Expressions are pure
     (terms carry no effects), so the rewriting preserves the value.  Terms with more than `max_conds` distinct
     conditions are returned unchanged."""
-    t = fold_constant_conditions(fuse_comprehensions(t))
+    t = normalise_tests(fold_constant_conditions(fuse_comprehensions(t)))
     conds = {}
     for x in t.walk():
         if x.op == "ifexp":
@@ -258,7 +291,7 @@ def canon(t: "T", max_conds: int = 6) -> "T":
             return a
         return T("ifexp", None, [conds[k], a, b], node=term.node)
 
-    return build(t, sorted(conds))
+    return normalise_tests(build(t, sorted(conds)))
 
 
 def phi(alts: List[T]) -> T:
